@@ -63,7 +63,7 @@ pub fn spec() -> Spec<Case> {
         rule: "invariant monitor attached to generated histories (<=24 ops) that exercise every note-producing path (commit, partial commit, amend, rebase fast/slow incl. interactive and conflicts, cherry-pick, merge --squash, reset+recommit, stash round trips) with file names drawn mostly from the unusual classes (spaces, tabs, quotes, unicode, leading dash, glob characters, names equal to the divider, a name containing a newline) and with refs/notes/ai re-laid-out by plumbing between ops (flat, aa/, aa/bb/, mixed). After every op, for every entry of `ls-tree -r refs/notes/ai`: one path per annotated object; the note parses under the independent v3 recogniser; schema_version; base_commit_sha == annotated commit; every entry hash has a prompt record; no 'human' entries; ranges sorted/non-overlapping; every named file exists in the commit; every line number <= the file's length at that commit. Metamorphic: a re-layout changes no blame result, and rewrites after it still find the notes. non-trivial = AI checkpoints present and (>=3 distinct note producers, or an unusual file name, or a forced layout); distinct by case hash".into(),
         cases_quick: 196,
         cases_thorough: 3000,
-        shrink_iters: 80,
+        shrink_iters: 30,
         workers: 14,
         strategy: strategy().sboxed(),
         run,
